@@ -160,8 +160,9 @@ class CallMixin:
                             info.key, pn, st.obj(x).cls.name,
                             getattr(node, "lineno", 0)), st, False, kind="memo")
         nm = info.qualname.split(".")[-1]
-        if self.depth == 0 and nm in getattr(self, "abstract_calls", ()) and \
-                info.cls is not None and self.cur_func is not info:
+        if nm in getattr(self, "abstract_calls", ()) and info.cls is not None and \
+                self.cur_func is not info and \
+                ("%s:%s.abstract.%s" % (info.module, info.cls.name, nm)) in self.contracts:
             ac = self.contracts.get("%s:%s.abstract.%s" % (info.module, info.cls.name, nm))
             if ac is None:
                 raise ContractBindingError("no abstract stand-in for " + info.key)
